@@ -418,7 +418,71 @@ def k_cli_session(d):
     return out
 
 
-KINDS = {'cli_session': k_cli_session, 'field_value': k_field_value, 'figure_tax': k_figure_tax, 'solve': k_solve, 'program': k_program, 'input_value': k_input_value}
+def _decode_pdf_literal(s, start):
+    out = []
+    depth = 0
+    k = start
+    while k < len(s):
+        c = s[k]
+        if c == '\\':
+            k += 1
+            if k >= len(s):
+                raise ValueError('dangling backslash')
+            e = s[k]
+            m = {'n': '\n', 'r': '\r', 't': '\t', 'b': '\b', 'f': '\f', '(': '(', ')': ')', '\\': '\\'}
+            if e in m:
+                out.append(m[e])
+            elif e in '01234567':
+                o = e
+                while len(o) < 3 and k + 1 < len(s) and s[k + 1] in '01234567':
+                    k += 1
+                    o += s[k]
+                out.append(chr(int(o, 8) % 256))
+            elif e == '\n':
+                pass
+            else:
+                out.append(e)
+            k += 1
+            continue
+        if c == '(':
+            depth += 1
+            out.append(c)
+        elif c == ')':
+            if depth == 0:
+                return ''.join(out), k + 1
+            depth -= 1
+            out.append(c)
+        else:
+            out.append(c)
+        k += 1
+    raise ValueError('unterminated')
+
+
+def k_fdf_value(d):
+    import os, tempfile
+    from habutax import pdf_filler
+    field = 'topmostSubform[0].Page1[0].f1_04[0]'
+    f = pdf_filler.PDFFiller.__new__(pdf_filler.PDFFiller)
+    tmp = tempfile.mkdtemp(prefix='hvfdf')
+    fn = os.path.join(tmp, 'x.fdf')
+    f._create_fdf({field: d['text']}, fn)
+    with open(fn) as fh:
+        txt = fh.read()
+    import shutil
+    shutil.rmtree(tmp, ignore_errors=True)
+    marker = '<< /T (%s) /V (' % field
+    pos = txt.find(marker)
+    try:
+        dec, after = _decode_pdf_literal(txt, pos + len(marker))
+        ok = dec == d['text'] and txt[after:after + 3] == ' >>'
+        detail = 'decoded %r from FDF of %r' % (dec, d['text'])
+    except ValueError as e:
+        ok = False
+        detail = 'FDF of %r is not a well-formed string (%s)' % (d['text'], e)
+    return {'reproduced': not ok, 'detail': detail}
+
+
+KINDS = {'fdf_value': k_fdf_value, 'cli_session': k_cli_session, 'field_value': k_field_value, 'figure_tax': k_figure_tax, 'solve': k_solve, 'program': k_program, 'input_value': k_input_value}
 
 
 def main():
